@@ -13,7 +13,10 @@ INVARIANT NoBracketFusion
 INVARIANT EscapeRoundTrip
 INVARIANT MakerShape
 INVARIANT MakerLaws
+INVARIANT RenderObserverFree
+INVARIANT RenderConvUnstated
 INVARIANT ExportU
 INVARIANT ExportTx
 INVARIANT ExportMk
+INVARIANT ExportVia
 CHECK_DEADLOCK FALSE
